@@ -210,10 +210,12 @@ def gen_plan(seed, tier):
     if rl.random() < cfg.get("large_share", 0):
         n = rl.randint(101, 130)
         k = 2       # CBC needs minutes for some 3-bin requests of this size, and its real clock is not ours to limit
-        lstyle = rl.choice(["small", "wide", "dupes"])
-        v0 = rl.randint(1, 200)
-        values = [rl.randint(1, 15) if lstyle == "small" else rl.randint(1, 200) if lstyle == "wide" else rl.choice([v0, v0, rl.randint(1, 200)])
-                  for _ in range(n)]
+        # values <= 15: the sums stay below 4 000, so that the solver's default RELATIVE gap tolerance (1e-4) is smaller
+        # than one unit of the objective - with values up to 200 CBC rightly calls [20005, 20009] "optimal" next to
+        # [20007, 20007] (seen on the unchanged tree; the solver's tolerance, not prtpy's model)
+        lstyle = rl.choice(["small", "small", "dupes"])
+        v0 = rl.randint(1, 15)
+        values = [rl.randint(1, 15) if lstyle == "small" else rl.choice([v0, v0, rl.randint(1, 15)]) for _ in range(n)]
         cm = rl.choice(["default", "default", "one", "two", "per_item", "per_item"])
         copies = {"default": None, "one": 1, "two": 2}.get(cm)
         if cm == "per_item":
